@@ -6,7 +6,7 @@ From WF Require Import model.Base model.RunState model.Routing model.Graph model
 (* a linear workflow 1 -> 2 -> 3 with a callback on 2, a timeout on 2, hooks and custom delete *)
 Definition ex_cfg : econfig :=
   mkEcfg [mkStep 1 (BRet true 2) [2] 0 0 0; mkStep 2 (BFailFirst 1 11 (BRet true 3)) [3] 0 2 0]
-         [mkCb 2 (BRet true 3) [3]] [mkTo 2 100 (BRet true 3) [3] 0] [(RSCompleted, O); (RSPaused, O)] []
+         [mkCb 2 (BRet true 3) [3]] [mkTo 2 100 (BRet true 3) [3] 0] [(RSCompleted, O); (RSPaused, O)] [] []
          1 0 0 50 1000 0 1 true.
 
 Definition ex_round : list eop :=
@@ -31,7 +31,7 @@ Proof. vm_compute. split; repeat constructor. Qed.
 
 (* ---------- F13 on the engine model: an older finished run, the schedule started three minutes later ---------- *)
 Definition f13_cfg : econfig :=
-  mkEcfg [mkStep 1 (BRet true 2) [2] 0 0 0] [] [] [] [mkSched 5%N 1 9 0] 0 0 0 (-1) 1000 0 1 false.
+  mkEcfg [mkStep 1 (BRet true 2) [2] 0 0 0] [] [] [] [mkSched 5%N 1 9 0] [] 0 0 0 (-1) 1000 0 1 false.
 Definition f13_ops : list eop :=
   [OTrigger 5%N 0 1 []; OStep 1 EOutbox []; OStep 1 (EStep 1 1 1) []; OStep 1 (EStep 1 1 1) []; OStep 1 EOutbox []; OAdvance 180000000000;
    OSched 1 5%N true; OStep 1 (ESched 5%N) []].
